@@ -79,6 +79,10 @@ def generate(rng, i):
             script.append({"op": "step", "env": 0, "action": a})
     if not script:
         script = [{"op": "reset", "env": 0, "fold": folds[0], "np_seed": 1}]
+    if rng.random() < 0.08:
+        # fault: the transmitter is handed one more (unobserved, out-of-range) event after the environment was built
+        resets = [j for j, op in enumerate(script) if op["op"] == "reset"]
+        script.insert(rng.choice(resets), {"op": "late_add", "env": 0})
     return {"kind": "epi", "envs": [env], "clock0": "1999-01-01T00:00:00", "script": script, "prng": rng.randrange(2 ** 31)}
 
 
